@@ -8,6 +8,7 @@
 //!         | 30 a (fixture: the group's risk admin becomes the authority of account a; 255 = the admin again)
 //!         | 32 b a (collect_bank_fees with a substituted fee ATA: the token account of user a for the bank's mint)
 //!         | 31 b flags (fixture: bank flags word := flags)
+//!         | 38 b old_bps old_max new_bps new_max epoch_new cur_epoch (fixture: pending Token-2022 fee change + clock epoch)
 //! out : per op `<res> # <bank dumps ';'-separated> # <account dumps ';'-separated>` joined by " | "
 use crate::sim::*;
 use crate::suites::bankops::{bank_pk, dump_bank, dump_la, parse_bank};
@@ -374,6 +375,19 @@ fn run_inner(line: &str, with_ref: bool) -> String {
                         ac.account_flags |= fl;
                     }
                 });
+                Ok(())
+            }
+            38 => {
+                // fixture: the mint of bank b gets a pending transfer-fee change (older schedule from epoch 0, newer schedule
+                // from epoch_new) and the cluster clock moves to cur_epoch.  No effect on mints without the extension.
+                let b = t.usize();
+                let old = (t.u16(), t.u64());
+                let new = (t.u16(), t.u64());
+                let epoch_new = t.u64();
+                let cur_epoch = t.u64();
+                if crate::sim::set_fee_schedule(&mut h.w, &h.mints[b], old, new, epoch_new) {
+                    h.w.epoch = cur_epoch;
+                }
                 Ok(())
             }
             36 => {
